@@ -237,6 +237,7 @@ fn gen(t: &mut Tape, tier: Tier) -> Scenario {
             pb: b.props.pb,
             dict: dict as u32,
             size: if b.marker { None } else { Some(b.expect.len() as u64) },
+            pre: None,
         }
         .store(&mut sc);
         sc.note = format!(
